@@ -43,6 +43,11 @@ var publishedLexeme = map[string]string{
 var publishedBool = map[string]bool{"AMPAMP": true, "BARBAR": true, "LT": true, "GT": true, "LE": true, "GE": true, "EQ": true, "BRACKET": true}
 
 func checkBinOpTable(c *Ctx, rule string, m *core.Module, varName, prefix string, where string, checkGoOp bool) []BinOpEntry {
+	return checkBinOpTableOpt(c, rule, m, varName, prefix, where, checkGoOp, false)
+}
+
+// checkBinOpTableOpt: with subsetOK the table may lack published operators (tinyfo's language subset).
+func checkBinOpTableOpt(c *Ctx, rule string, m *core.Module, varName, prefix string, where string, checkGoOp bool, subsetOK bool) []BinOpEntry {
 	r := c.R
 	tab, pos, ok := c.binOpTable(m, varName, prefix)
 	if !ok {
@@ -71,6 +76,9 @@ func checkBinOpTable(c *Ctx, rule string, m *core.Module, varName, prefix string
 		}
 	}
 	sort.Strings(extra)
+	if subsetOK {
+		missing = nil
+	}
 	r.Check(len(missing) == 0 && len(extra) == 0, rule, where+"."+varName, "operator-set", pos,
 		sprintf("the table has exactly the %d published operators", len(publishedGoOp)),
 		"operator set differs from the published table: missing ["+strings.Join(missing, ",")+"] extra ["+strings.Join(extra, ",")+"]")
